@@ -153,6 +153,17 @@ def malformed_stream(rnd, tier, per_seed=10):
             pkt, _ = P.sctp(rnd, chunks=[(raw, {})])
             for stack, full in (('SCTP', pkt), ('IPv6', P.ipv6(rnd, pkt, 132))):
                 cases.append((stack, b2s(full), 'short-typed-chunk'))
+    # parameters / error causes whose 16-bit length field is 0..3 (less than their own 4-byte header), in every chunk type that is walked as
+    # parameters, first or after a well-formed parameter, bytes present in the buffer
+    for ctype in (1, 2, 4, 5, 6, 9):
+        for plen in (0, 1, 2, 3):
+            for lead in ((False, True) if T else (rnd.random() < 0.5,)):
+                bad = _st.pack('!HH', rnd.choice([rnd.randrange(65536), 1, 5, 0x8005]), plen) + rnd.randbytes(rnd.choice([0, 4]))
+                value = (rnd.randbytes(16) if ctype in (1, 2) else b'') + (P.sctp_param(rnd)[0] if lead else b'') + bad
+                raw = _st.pack('!BBH', ctype, rnd.randrange(256), 4 + len(value)) + value
+                pkt, _ = P.sctp(rnd, chunks=[(raw, {})] + ([P.sctp_chunk(rnd)] if rnd.random() < 0.3 else []))
+                for stack, full in (('SCTP', pkt), ('IPv4', P.ipv4(rnd, pkt, 132))):
+                    cases.append((stack, b2s(full), 'short-parameter-length'))
     # DATA chunks under every payload protocol identifier of the IANA registry's assigned range (0..75) and a few above: whatever a parser
     # does with an identifier it knows, an identifier it does not know is just a number
     for ppid in (list(range(0, 76)) + [132, 5683, 65535, 2 ** 32 - 1] if T else [0, 1, 3, 4, 6, 17, 18, 39, 41, 46, 47, 53, 60, 61, 62, 63, 64, 132, 5683]):
